@@ -52,3 +52,76 @@ func main() {
 	}
 }
 `
+
+// librejectSource: the generator used as a library on a schema object that has a duplicate (message type or field
+// number) added in memory: the Generator must reject it at every attempt; after the application has taken the
+// duplicate out of the document again, the same Generator (and a new one) must produce the package of the schema.
+const librejectSource = `package main
+
+import (
+	"fmt"
+	"os"
+	"path/filepath"
+
+	"github.com/b2broker/simplefix-go/generator"
+	"github.com/b2broker/simplefix-go/utils"
+)
+
+func main() {
+	defer func() {
+		if p := recover(); p != nil {
+			fmt.Println("PANIC:", p)
+			os.Exit(3)
+		}
+	}()
+	mode := os.Args[1]
+	doc := &generator.Doc{}
+	if err := utils.ParseXML(os.Args[2], doc); err != nil {
+		fmt.Println("ERROR:", err)
+		os.Exit(2)
+	}
+	config := &generator.Config{}
+	if err := utils.ParseXML(os.Args[3], config); err != nil {
+		fmt.Println("ERROR:", err)
+		os.Exit(2)
+	}
+	outs := os.Args[4:]
+	for _, out := range outs {
+		if err := os.MkdirAll(out, os.ModePerm); err != nil {
+			fmt.Println("ERROR:", err)
+			os.Exit(2)
+		}
+	}
+	nm, nf := len(doc.Messages), len(doc.Fields)
+	switch mode {
+	case "msgtype":
+		dup := *doc.Messages[nm-1]
+		dup.Name = "ZzDuplicateOfTheFirstType"
+		dup.MsgType = doc.Messages[0].MsgType
+		doc.Messages = append(doc.Messages, &dup)
+	case "field":
+		dup := *doc.Fields[nf/2]
+		dup.Name = "ZzDuplicateNumber"
+		doc.Fields = append(doc.Fields, &dup)
+	}
+	g := generator.NewGenerator(doc, config, filepath.Base(outs[0]))
+	for i := 0; i < 2; i++ {
+		if err := g.Execute(outs[i]); err != nil {
+			fmt.Printf("ATTEMPT%d: rejected: %v\n", i+1, err)
+		} else {
+			fmt.Printf("ATTEMPT%d: accepted\n", i+1)
+		}
+	}
+	doc.Messages, doc.Fields = doc.Messages[:nm], doc.Fields[:nf]
+	if err := g.Execute(outs[2]); err != nil {
+		fmt.Printf("REPAIRED-SAME-GENERATOR: error: %v\n", err)
+	} else {
+		fmt.Println("REPAIRED-SAME-GENERATOR: generated")
+	}
+	if err := generator.NewGenerator(doc, config, filepath.Base(outs[3])).Execute(outs[3]); err != nil {
+		fmt.Printf("REPAIRED-NEW-GENERATOR: error: %v\n", err)
+	} else {
+		fmt.Println("REPAIRED-NEW-GENERATOR: generated")
+	}
+}
+`
